@@ -123,7 +123,7 @@ func (e *mpEnv) subjects() (subs []*subject) {
 		s.Safe, s.Random, s.Cfg = true, true, tag
 		subs = append(subs, s)
 	}
-	smp := []string{"*.gaussianSamplerQ", "*.ternarySamplerQ", "*.noiseSampler"}
+	smp := []string{}
 	// ---- collective public key
 	add(&subject{Ctor: "multiparty.PublicKeyGenProtocol.ShallowCopy", Scratch: smp,
 		Make: func() any { x := multiparty.NewPublicKeyGenProtocol(p); return &x },
@@ -229,7 +229,7 @@ func (e *mpEnv) subjects() (subs []*subject) {
 		}})
 	// ---- collective Galois key
 	if p.NTTFlag() {
-		add(&subject{Ctor: "multiparty.GaloisKeyGenProtocol.ShallowCopy", Scratch: append([]string{"*.skOut", "*.EvaluationKeyGenProtocol.buff", "*.EvaluationKeyGenProtocol.gaussianSamplerQ"}, smp...),
+		add(&subject{Ctor: "multiparty.GaloisKeyGenProtocol.ShallowCopy", Scratch: append([]string{"*.skOut", "*.EvaluationKeyGenProtocol.buff", "*.EvaluationKeyGenProtocol.buff"}, smp...),
 			Make: func() any { x := multiparty.NewGaloisKeyGenProtocol(p); return &x },
 			Copy: func(o any) any { x := o.(*multiparty.GaloisKeyGenProtocol).ShallowCopy(); return &x },
 			Work: func(x any) (o outs) {
@@ -306,7 +306,7 @@ func (e *mpEnv) subjects() (subs []*subject) {
 		}})
 	// ---- collective public-key switching sk -> tpk
 	add(&subject{Ctor: "multiparty.PublicKeySwitchProtocol.ShallowCopy",
-		Scratch: append([]string{"*.buf", "*.Encryptor*.encryptorBuffers", "*.Encryptor*.basisextender*.buffQ", "*.Encryptor*.basisextender*.buffP", "*.Encryptor*.xeSampler", "*.Encryptor*.xsSampler", "*.Encryptor*.uniformSampler"}, smp...),
+		Scratch: append([]string{"*.buf", "*.Encryptor*.encryptorBuffers", "*.Encryptor*.basisextender*.buffQ", "*.Encryptor*.basisextender*.buffP"}, smp...),
 		Make: func() any {
 			x, err := multiparty.NewPublicKeySwitchProtocol(p, e.noise)
 			if err != nil {
